@@ -376,7 +376,7 @@ def run(tier, seed, part=None):
                  ({"max_send": 12, "max_adv": 3, "pattern": "BBIIIIIIBBBI"}, 16, 0),
                  ({"max_send": 7, "max_adv": 4, "pattern": "B" * 7}, 12, 0),
                  ({"max_send": 6, "max_adv": 2, "pattern": "B" * 6, "stall": True}, 12, 0)]
-        cap = 800
+        cap = 300
     for gen in (4, 5):
         for extra, depth, dev in plans:
             params = dict(gen=gen, **extra)
